@@ -45,6 +45,7 @@ type call struct {
 type removal struct {
 	agent, blob int
 	seq         int64
+	doneSeq     int64 // 0 while RemoveTorrent has not returned
 }
 
 type world struct {
@@ -53,7 +54,7 @@ type world struct {
 	blobs    [][]byte
 	digests  []core.Digest
 	calls    []*call
-	removals []removal
+	removals []*removal
 	stopped  map[int]int64 // agent -> seq of Stop/Reload invocation
 	httpFaulty bool
 }
@@ -112,7 +113,19 @@ func (w *world) download(ai, bi int) {
 		}
 	case strings.HasPrefix(err.Error(), "create torrent"):
 		w.s.Probe("err_create_torrent")
-		if !w.httpFaulty {
+		// Torrent creation runs outside the event loop; a RemoveTorrent of the
+		// same digest that overlaps the call may delete the download file under
+		// it. That is an error result caused by the removal, which the
+		// statement allows ("removed").
+		overlapRemoval := false
+		for _, r := range w.removals {
+			if r.agent == ai && r.blob == bi && (r.doneSeq == 0 || r.doneSeq > cl.beginSeq) {
+				overlapRemoval = true
+			}
+		}
+		if overlapRemoval {
+			w.s.Probe("create_torrent_raced_with_removal")
+		} else if !w.httpFaulty {
 			w.s.Fail("unexplained_error", "call#%d: %v without any injected fault on the metainfo path", cl.id, err)
 		}
 	default:
@@ -321,11 +334,13 @@ func infoHashOf(s *simrt.Sim, w *world, bi int) core.InfoHash {
 
 func (w *world) remove(ai, bi int) {
 	a := w.c.Agents[ai]
-	w.removals = append(w.removals, removal{ai, bi, w.s.NextSeq()})
+	rm := &removal{agent: ai, blob: bi, seq: w.s.NextSeq()}
+	w.removals = append(w.removals, rm)
 	w.s.Logf("RemoveTorrent agent%d blob%d", ai+1, bi)
 	d := w.digests[bi]
 	w.s.GoNode(a.Node, "remove", func() {
 		err := a.Sched.RemoveTorrent(d)
+		rm.doneSeq = w.s.NextSeq()
 		w.s.Logf("RemoveTorrent agent%d blob%d -> %v", ai+1, bi, err)
 	})
 }
